@@ -134,6 +134,7 @@ func cmdCheck(args []string) int {
 		x.Budget = time.Duration(envInt("VX_BUDGET", 900)) * time.Second
 		x.Known = known
 		x.Run()
+		x.Canonicalise()
 		fmt.Println(x.Summary())
 
 		rep := harnessReport{Name: hs.Name, Paths: len(x.Paths), PathEnds: map[string]int{}, Steps: x.TotalSteps,
